@@ -222,3 +222,31 @@ func TestC14Replay(t *testing.T) {
 		t.Fatalf("REPLAY-FAIL %s: failed %d of %d runs: %s", f.Check, fails, n, last)
 	}
 }
+
+// TestC14MidCycle — the interleavings C14 is about, with the harness owning the schedule: the synchronous world runs
+// scheduling cycles in which an RM request (release of the ask being allocated, removal of its application, removal or
+// drain of the node it was placed on, release of a placeholder) is delivered exactly between the application level
+// allocation and the partition level processing of its result (build tagged interleaving point in
+// PartitionContext.allocate / tryPlaceholderAllocate). Oracles: the SI protocol model (C04) and the quiescent
+// invariants of C01/C03/C05/C09 every step, exact zero after the drain epilogue.
+func TestC14MidCycle(t *testing.T) {
+	runWorld(t, worldCheck{prop: "C14", check: "C14/midcycle", also: []string{"C01=>C14", "C03=>C14", "C04=>C14", "C05=>C14", "C09=>C14"}, profile: func() *harness.Profile {
+		p := mixedProfile()
+		p.Name = "midcycle"
+		p.Conf = harness.ConfOpts{MaxDepth: 2, Quotas: true, MaxApps: true, FifoOnly: true}
+		p.Weights = harness.With(harness.BaseWeights(), map[string]int{harness.OpScheduleRace: 14, harness.OpSchedule: 18, harness.OpAddAsk: 22, harness.OpReportBound: 3,
+			harness.OpRelease: 5, harness.OpReload: 0, harness.OpSetPred: 3})
+		p.NodeLo, p.NodeHi, p.AskLo, p.AskHi = 4, 12, 1, 8
+		p.ReqNodeProb, p.OldAskProb, p.GangProb = 15, 70, 25
+		p.Epilogue = true
+		return p
+	}, nonTriv: func(w *harness.World) bool {
+		n := 0
+		for k, v := range w.Tags {
+			if strings.HasPrefix(k, "race-") && v > 0 {
+				n++
+			}
+		}
+		return n >= 2
+	}})
+}
